@@ -1060,6 +1060,12 @@ fn run_steps(cx: &mut Ctx, scn: &Scenario) -> Result<(), Violation> {
                 [cx.snaps[0].cap, cx.snaps[1].cap, cx.snaps[2].cap],
             ));
         }
+        if obs.iter().any(|e| *e == Ev::Unsupported) {
+            // a problem of the harness (a panic of its own code, or a step variant this world cannot
+            // run) is never a verdict on the library, under any oracle
+            let diag = cx.world.take_diag();
+            return Err(cx.viol(Class::Unsupported, step, Some(&p), 0, format!("harness: step variant not supported in this world, or harness panic: {} {:?}", diag, p.r)));
+        }
         // abstract state: (lengths, capacity class)
         {
             let mut hs = LogHash::new();
@@ -1104,6 +1110,11 @@ fn run_steps(cx: &mut Ctx, scn: &Scenario) -> Result<(), Violation> {
                 let r = strict_all(cx, step, &p, &obs, &before_snaps, m0, a0, panicked, built);
                 match r {
                     Ok(()) => break,
+                    // a problem of the harness is never a verdict on the library: report it alone
+                    Err(v) if v.class == Class::Unsupported => {
+                        cx.skip = 0;
+                        return Err(v);
+                    }
                     Err(v) => {
                         cx.skip |= 1u64 << (v.class as u64);
                         found.push(v);
